@@ -44,6 +44,7 @@ def O(t):
 
 
 Q, Z, N, B, G, U, LIT, ID, FSTR, KSET, SEG, BUF, STR, SHP, TAG, OBJ, FNAME, ARR = "Q", "Z", "N", "B", "G", "U", "LIT", "Id", "F", "K", "Seg", "Buf", "Str", "Shp", "Tag", "Obj", "Fname", "Arr"
+COO = "Coo"
 
 
 def coq_type(t) -> str:
@@ -79,6 +80,8 @@ def coq_type(t) -> str:
         return "fname"
     if t == ARR:
         return "axis"
+    if t == COO:
+        return "coo"
     if isinstance(t, tuple) and t[0] == "S":
         return f"(list {coq_type(t[1])})"
     if isinstance(t, tuple) and t[0] == "D":
@@ -98,7 +101,7 @@ def coq_type(t) -> str:
 def parse_type(s: str):
     """'Q', 'O(Q)', 'L(L(Q))', 'T(Q,Q)' -> type"""
     s = s.strip()
-    for atom in (Q, Z, N, B, G, U, ID, FSTR, KSET, SEG, BUF, SHP, TAG, OBJ, FNAME, ARR):
+    for atom in (Q, Z, N, B, G, U, ID, FSTR, KSET, SEG, BUF, SHP, TAG, OBJ, FNAME, ARR, COO):
         if s == atom:
             return atom
     if s.startswith("R{") and s.endswith("}"):  # record: R{tag:Tag;score:Q}
@@ -1343,6 +1346,18 @@ class Fn:
                 for n, t in zip(names, et[1:]):
                     env2[n] = (n, t)
                 return "'(" + ", ".join(names) + ")", "", ""
+        if isinstance(target, ast.Tuple) and isinstance(et, tuple) and et[0] == "T" and len(et) - 1 == len(target.elts):
+            # nested unpacking of tuples of tuples: `for (i, a), (j, b) in …`
+            def pat(tg, ty):
+                if isinstance(tg, ast.Name):
+                    if isinstance(ty, tuple) and ty[0] == "R":
+                        raise Unsupported("record inside a nested target")
+                    env2[tg.id] = (tg.id, ty)
+                    return tg.id
+                if isinstance(tg, ast.Tuple) and isinstance(ty, tuple) and ty[0] == "T" and len(ty) - 1 == len(tg.elts):
+                    return "(" + ", ".join(pat(x, t) for x, t in zip(tg.elts, ty[1:])) + ")"
+                raise Unsupported("for target (nested)")
+            return "'" + pat(target, et), "", ""
         raise Unsupported("for target")
 
     def fold_for(self, s, rest, env, k, mode, hoist, it, tit, state):
@@ -1385,7 +1400,7 @@ class Fn:
         ret_branch = "Ok (BRet v_)" if mode == "fold" else "Ok v_"
         st_ty = coq_type(T(*[sty[n] for n in state])) if len(state) > 1 else (coq_type(sty[state[0]]) if state else "unit")
         loop = (f"fold_loop (S := {st_ty}) (R := {coq_type(self.ret)}) {it} {st_val(env)} (fun {st_pat} {binder} =>\n{opening}{body}{closing})")
-        return self.wrap(hoist, f"bind ({loop}) (fun r_ =>\nmatch r_ with\n| LRet v_ => {ret_branch}\n| LDone {st_pat} =>\n{after}\nend)", mode)
+        return self.wrap(hoist, f"bind ({loop}) (fun r_ =>\nmatch r_ with\n| LRet v_ => {ret_branch}\n| LDone {st_pat.lstrip("'")} =>\n{after}\nend)", mode)
 
     # ---- whole function
     def translate(self) -> str:
@@ -1556,6 +1571,51 @@ def area_handler(fn, e, env, hoist, pure):
         if (isinstance(v, ast.Call) and isinstance(v.func, ast.Attribute) and v.func.attr == "intersection" and isinstance(v.func.value, ast.Name)
                 and v.func.value.id == "shp1" and len(v.args) == 1 and isinstance(v.args[0], ast.Name) and v.args[0].id == "shp2" and not v.keywords):
             return "inter_area", Q
+    return None
+
+
+def simmat_handler(fn, e, env, hoist, pure):
+    """combinations(enumerate(xs), 2) -> all pairs ((i, xs[i]), (j, xs[j])) with i < j in lexicographic order;
+    sparse.coo_array((data, (i, j)), shape=(r, c), dtype=np.int8) -> the opaque matrix mk_coo data i j r c
+    (scipy's COO constructor: entry k is data[k] at row i[k], column j[k]; duplicates are summed by consumers)."""
+    if isinstance(e, ast.Call):
+        f = fn.attr_path(e.func) if isinstance(e.func, ast.Attribute) else (e.func.id if isinstance(e.func, ast.Name) else None)
+        if f in ("combinations", "itertools.combinations") and len(e.args) == 2 and not e.keywords:
+            if not (isinstance(e.args[1], ast.Constant) and e.args[1].value == 2 and not isinstance(e.args[1].value, bool)):
+                raise Unsupported("combinations of another size than 2")
+            t, ty = fn.expr(e.args[0], env, hoist, pure)
+            if not (isinstance(ty, tuple) and ty[0] == "L"):
+                raise Unsupported("combinations of a non-list")
+            return f"(py_combinations2 {t})", L(T(ty[1], ty[1]))
+        if f == "enumerate" and len(e.args) == 1 and not e.keywords:
+            t, ty = fn.expr(e.args[0], env, hoist, pure)
+            if not (isinstance(ty, tuple) and ty[0] == "L"):
+                raise Unsupported("enumerate of a non-list")
+            return f"(py_enumerate {t})", L(T(N, ty[1]))
+        if f in ("sparse.coo_array", "sparse.coo_matrix", "coo_array", "coo_matrix"):
+            kws = {k.arg: k.value for k in e.keywords}
+            if len(e.args) != 1 or set(kws) != {"shape", "dtype"} or ast.unparse(kws["dtype"]) not in ("np.int8", "np.int16", "np.int32", "np.int64", "int"):
+                raise Unsupported("coo_array call shape")
+            a = e.args[0]
+            if not (isinstance(a, ast.Tuple) and len(a.elts) == 2 and isinstance(a.elts[1], ast.Tuple) and len(a.elts[1].elts) == 2):
+                raise Unsupported("coo_array data argument")
+            sh = kws["shape"]
+            if not (isinstance(sh, ast.Tuple) and len(sh.elts) == 2):
+                raise Unsupported("coo_array shape")
+            d, td = fn.expr(a.elts[0], env, hoist, pure)
+            i, ti = fn.expr(a.elts[1].elts[0], env, hoist, pure)
+            j, tj = fn.expr(a.elts[1].elts[1], env, hoist, pure)
+            r, tr = fn.expr(sh.elts[0], env, hoist, pure)
+            c, tc = fn.expr(sh.elts[1], env, hoist, pure)
+            if td == ("L", None):
+                td = L(Q)
+            if ti == ("L", None):
+                ti = L(N)
+            if tj == ("L", None):
+                tj = L(N)
+            if (td, ti, tj, tr, tc) != (L(Q), L(N), L(N), Z, Z):
+                raise Unsupported(f"coo_array argument types {(td, ti, tj, tr, tc)}")
+            return f"(mk_coo {d} {i} {j} {r} {c})", COO
     return None
 
 
@@ -1872,6 +1932,12 @@ def generate(src_root: Path) -> tuple[str, dict]:
     cobj = "R{clip.uuid:Z;uuid:Z}"
     unit("iterate_over_valid_clips", "evaluation/tasks/common.py", "iterate_over_valid_clips",
          {"params": {"clip_predictions": f"L({cobj})", "clip_annotations": f"L({cobj})"}, "yields": True, "ret": f"L(T({cobj},{cobj}))"})
+
+    # ---- C13: the similarity matrix of group_sound_events (a sound event is represented by an identifier; the
+    #      comparison function is a parameter of the definition)
+    unit("compute_similarity_matrix", "geometry/operations.py", "_compute_similarity_matrix",
+         {"params": {"sound_events": "L(Z)"}, "drop_params": ["comparison_fn"], "fparams": {"comparison_fn": "Z -> Z -> bool"},
+          "calls": {"comparison_fn": {"coq": "comparison_fn", "args": ["Z", "Z"], "ret": "B"}}, "custom": [simmat_handler], "ret": "Coo"})
 
     # ---- C05 (and the bounds every geometry property goes through): geometry_to_shapely and compute_bounds
     rel = "geometry/conversion.py"
